@@ -705,7 +705,11 @@ func run(o hx.RunOpts) error {
 		"begin / NewBtree (atomic, or split into lookup and Add by parking the transaction before StoreRepository.Add) / OpenBtree / Add / Commit "+
 		"(optionally with failing blob writes) / Rollback / RemoveBtree over three store names and four option sets; every answer and a cold dump "+
 		"(fresh process: GetStores, OpenBtree, Count, scan; store folder listing) are compared with the model. distinct = canonical op-line hash; "+
-		"non-trivial = at least one store was created in the case")
+		"non-trivial = at least one store was created in the case. Lock-level cases (header `lock`): two to five callers of StoreRepository.Add / Remove / Get "+
+		"and of NewBtree, each with its own StoreRepository over the shared L2 cache, parked at the L2 cache calls of Add / Remove (before a DualLock attempt, after a "+
+		"successful one, around SetStruct / Delete, before Unlock) while the others run; directed: one creator parked at each point x 17 windows of whole calls "+
+		"(same name, other name, remove, third-party add) x two layouts; random: park-point walks; compared with Sop.StoreRepoLock and judged by the direct oracle "+
+		"(one creator told `created`, store info files / cache entry / warm and cold Get describe it, store list = created and not removed)")
 	ctx := context.Background()
 	p := hx.NewPrng(o.Seed)
 	layouts := []bool{false}
@@ -724,6 +728,7 @@ func run(o hx.RunOpts) error {
 		corpusRace(ctx, s, true, false)
 		corpusRemoveRecreate(ctx, s, true)
 	}
+	runLock(ctx, s, o, p.Fork())
 	n := o.N(1200, 10000)
 	for i := 0; i < n; i++ {
 		repl := false
